@@ -18,6 +18,7 @@ type Issue struct {
 	Path string
 	Type string
 	Msg  string
+	At   *RNode // the node concerned (nil when there is none)
 }
 
 func (i Issue) String() string { return fmt.Sprintf("%s at %s (%s): %s", i.Kind, i.Path, i.Type, i.Msg) }
@@ -46,21 +47,21 @@ func CheckSpans(t *Tree, base, srcLen int) []Issue {
 		s := spanOf(rn.Node)
 		spans[rn] = s
 		if s.Panic != "" {
-			out = append(out, Issue{"span-panic", rn.Path, rn.Type, "Idx0/Idx1 panicked: " + s.Panic})
+			out = append(out, Issue{"span-panic", rn.Path(), rn.Type, "Idx0/Idx1 panicked: " + s.Panic, rn})
 			continue
 		}
 		if s.I0 > s.I1 {
-			out = append(out, Issue{"span-order", rn.Path, rn.Type, fmt.Sprintf("Idx0=%d > Idx1=%d", s.I0, s.I1)})
+			out = append(out, Issue{"span-order", rn.Path(), rn.Type, fmt.Sprintf("Idx0=%d > Idx1=%d", s.I0, s.I1), rn})
 			continue
 		}
 		if s.I0 < base || s.I1 > base+srcLen {
-			out = append(out, Issue{"span-file", rn.Path, rn.Type, fmt.Sprintf("span [%d,%d) outside the file [%d,%d]", s.I0, s.I1, base, base+srcLen)})
+			out = append(out, Issue{"span-file", rn.Path(), rn.Type, fmt.Sprintf("span [%d,%d) outside the file [%d,%d]", s.I0, s.I1, base, base+srcLen), rn})
 			continue
 		}
 		if p := rn.Parent; p != nil {
 			ps, ok := spans[p]
 			if ok && ps.Panic == "" && ps.I0 <= ps.I1 && (s.I0 < ps.I0 || s.I1 > ps.I1) {
-				out = append(out, Issue{"span-parent", rn.Path, rn.Type, fmt.Sprintf("span [%d,%d) not within the span [%d,%d) of its parent %s", s.I0, s.I1, ps.I0, ps.I1, p.Type)})
+				out = append(out, Issue{"span-parent", rn.Path(), rn.Type, fmt.Sprintf("span [%d,%d) not within the span [%d,%d) of its parent %s", s.I0, s.I1, ps.I0, ps.I1, p.Type), rn})
 			}
 		}
 	}
